@@ -47,6 +47,16 @@ CHECKS = {
                  "ordering must-raise TypeError on all four operators; hash reads a subset of eq.",
         "note": NOTE,
     },
+    "C10": {
+        "technique": "sibling cross-check of the Scalar/Array dispatch tables; def-use terms for operand sides of the shared database operation; "
+                     "CFG dominance/must-raise for the length guard; definite-assignment dataflow; pass-through check of the pair generator",
+        "level": "Structural necessary conditions of elementwise equality, for every container combination and length: both classes reach the same "
+                 "database operation with operands on their own sides, once per generated pair; two iterated operands are length-checked "
+                 "before zipping; nothing read after the loop depends on the loop having run (empty operands); tuple-ness depends only on "
+                 "iterated operands; the generator never coerces an operand; FromScalars and GetValues convert every element with the unit "
+                 "they advertise. numpy's vectorised evaluation is trusted.",
+        "note": NOTE,
+    },
     "C14": {
         "technique": "who-may-write enumeration of registry mutation sites via def-use terms; check-before-write and dominance on CFGs; "
                      "exhaustive table lint over the interpreted registration log",
